@@ -29,6 +29,10 @@ def _pair(c):
     # translation by 2^25 time units (dates as day / second counts): exact in double precision
     tsb = ts + 2.0**25
     _call(o, "es_bigshift", ES.event_synchronization, x, y, ts1=tsb, ts2=tsb, taumax=tm, lag=lag)
+    # a change of the time UNIT (all times, the window and the lag multiplied by 2^-40 or 2^30 - exact in double
+    # precision): the counting formulas are homogeneous, the strengths do not change
+    for nm, f in (("es_tiny", 2.0**-40), ("es_huge", 2.0**30)):
+        _call(o, nm, ES.event_synchronization, x, y, ts1=ts * f, ts2=ts * f, taumax=tm * f, lag=lag * f)
     if c["tm"] == enc.INF:
         tsc = ts * c["scale"]
         _call(o, "es_scale", ES.event_synchronization, x, y, ts1=tsc, ts2=tsc, taumax=tm,
